@@ -2,6 +2,7 @@ SPECIFICATION Spec
 CONSTANTS MaxOps = 5 RawOps = 7
   Shapes <- ShapesT
   Datas <- DatasT
+  RawDatas <- RawDatasQ
   Ks <- KsQ
   OpenArgs <- OpenT
   SeekArgs <- SeekQ
